@@ -340,6 +340,169 @@ class PbModel:
         st.heap[kl] = z3.Store(eng.field_array(st, kl), r, fresh("replen", Int))
         return sv_none()
 
+    def sub_set(self, eng, sub, attr, val, st):
+        """parent.field.attr = val  on a message-typed field: protobuf creates the sub-message if it is absent (and selects it
+        in its one-of)"""
+        r, msg, fattr, t = sub.x
+        k = self.key(msg, fattr)
+        cur = z3.Select(eng.field_array(st, k), r)
+        present = z3.simplify(is_VRef(cur))
+        if z3.is_true(present):
+            m = SV("ref", z3.simplify(ref(cur)), cls="pb:" + t)
+        elif z3.is_false(present) or z3.is_false(z3.simplify(z3.Not(is_VNone(cur)))):
+            m = self.new(eng, st, t)
+            st.heap[k] = z3.Store(eng.field_array(st, k), r, VRef(m.t))
+            f = self.fdef(msg, fattr)
+            if f["oneof"] is not None:
+                self._select_oneof(eng, st, r, msg, f)
+                st.heap[k] = z3.Store(eng.field_array(st, k), r, VRef(m.t))
+        else:
+            raise Unsupported("assignment through a sub-message whose presence is not known on this path")
+        self.set(eng, m, attr, val, st)
+
+    def extend_genfunc(self, eng, recv, callee, st):
+        """rep.extend(obj.gen())  where gen is a generator method of the package without contract whose body is
+            for <targets> in <stateless iterable>:  <statements that only allocate and fill new messages>;  yield <message>
+        Same map rule as extend_map, with the loop body in the role of the callee: one new message per element (and per
+        path through the body), pre-existing objects unchanged.  The body is executed on the real AST for an arbitrary
+        element; anything that is not an allocation or a write to an object allocated in that iteration is outside the rule."""
+        import ast as _ast
+        from .core import serial_mark, consts_since, legal_pattern
+        from .extract import strip_docstring
+        r, msg, attr = recv.x
+        obj, m, ci = callee.x
+        body = strip_docstring(m.node.body)
+        if len(body) != 1 or not isinstance(body[0], _ast.For) or body[0].orelse:
+            raise Unsupported("extend(generator method): body is not a single for loop")
+        loop = body[0]
+        last = loop.body[-1]
+        if not (isinstance(last, _ast.Expr) and isinstance(last.value, _ast.Yield) and last.value.value is not None):
+            raise Unsupported("extend(generator method): loop body does not end with a yield")
+        for n_ in _ast.walk(_ast.Module(body=loop.body[:-1], type_ignores=[])):
+            if isinstance(n_, (_ast.Yield, _ast.YieldFrom, _ast.Return)):
+                raise Unsupported("extend(generator method): yield/return inside the body")
+        env = eng.bind_params(m, [obj], {}, st, None)
+        saved = (eng.cur_fn, st.env)
+        eng.cur_fn = m
+        try:
+            st.env = env
+            it = eng.eval(loop.iter, st)
+            bags = eng.bags_of(it, st)
+            heap0 = dict(st.heap)
+            alive0 = eng.field_array(st, "$alive")
+            per = []
+            for b in bags:
+                if b.aux:
+                    raise Unsupported("map rule over an iterable with auxiliary state")
+                mark = serial_mark()
+                news, cond, elem, bdefs = b.instantiate("mp")
+                s = st.fork()
+                s.env = dict(env)
+                s.assume(cond)
+                s.define(bdefs)
+                eng.assign(loop.target, elem, s)
+                pc0 = len(s.pc)
+                for (s2, ctrl) in eng.exec_stmts(loop.body[:-1], s):
+                    if ctrl is not None and ctrl[0] == "raise":
+                        s2.env = saved[1]
+                        eng.exc_paths.append((s2, ctrl[1]))
+                        continue
+                    if ctrl is not None:
+                        raise Unsupported("extend(generator method): control flow leaves the loop body")
+                    res = eng.eval(last.value.value, s2)
+                    if not (res.k == "ref" and (res.cls or "").startswith("pb:")):
+                        raise Unsupported("map rule: element is not a message")
+                    try:
+                        ev = to_val(elem)
+                    except Unsupported:
+                        ev = None
+                    per.append((news, cond, res.t, s2, pc0, mark, ev))
+        finally:
+            eng.cur_fn, st.env = saved
+        # heap fields written by the iterations
+        keys = sorted({k for p_ in per for k, arr in p_[3].heap.items() if k not in heap0 or not z3.eq(arr, heap0[k])})
+        final = {}
+        rr = fresh("r", Int)
+        for k in keys:
+            if k not in heap0:
+                heap0[k] = eng.field_array(st, k)
+            final[k] = fresh("HM_" + k.replace("#", "_").replace("$", "S").replace(".", "_"), heap0[k].sort())
+            st.define(z3.ForAll([rr], z3.Implies(z3.Select(alive0, rr), z3.Select(final[k], rr) == z3.Select(heap0[k], rr))))
+        added = []
+        from .symex import local_cond
+        ks = self.key(msg, attr) + "#set"
+        old = z3.Select(eng.field_array(st, ks), r)
+        new = fresh("rep", SetSort)
+        x = fresh("x", Val)
+        disj = [z3.Select(old, x)]
+        for (news, cond, mref, s2, pc0, mark, ev) in per:
+            # branch decisions of this path through the body vs. definitional facts (allocation, callee postconditions)
+            decs, facts0 = [], []
+            for i_ in range(pc0, len(s2.pc)):
+                f_ = s2.pc[i_]
+                created = [c_ for c_ in consts_since([f_], mark) if not any(c_.eq(y) for y in news)]
+                if i_ in s2.nondec:
+                    facts0.append(f_)
+                elif not created:
+                    decs.append(f_)
+                elif z3.is_not(f_) and z3.is_select(f_.arg(0)) and z3.is_const(f_.arg(0).arg(1)):
+                    facts0.append(f_)           # "the newly allocated object was not alive before"
+                else:
+                    raise Unsupported("map rule: a branch of the loop body depends on a value created in the body")
+            dec = z3.And(decs) if decs else z3.BoolVal(True)
+            defs = z3.And(facts0) if facts0 else z3.BoolVal(True)
+            writes = []
+            for k in keys:
+                arr = s2.heap.get(k, heap0[k])
+                seen_idx = []
+                while z3.is_store(arr):
+                    idx, val = arr.arg(1), arr.arg(2)
+                    if not any(idx.eq(j_) for j_ in seen_idx):
+                        seen_idx.append(idx)
+                        writes.append((k, idx, val))
+                    arr = arr.arg(0)
+                if not arr.eq(heap0[k]):
+                    raise Unsupported("map rule: field %s is not written by plain stores in the loop body" % k)
+            terms = [dec, defs, mref] + [w[1] for w in writes] + [w[2] for w in writes]
+            others = [x_ for x_ in consts_since(terms, mark) if not any(x_.eq(y) for y in news)]
+            objs = [x_ for x_ in others if x_.sort() == Int]
+            for (k, idx, val) in writes:
+                if not any(idx.eq(o_) for o_ in objs):
+                    raise Unsupported("map rule: the loop body writes %s of an object it did not allocate" % k)
+            sub = []
+            for x_ in others:
+                fx = z3.Function("sk_" + x_.decl().name().replace("!", "_"), *([n_.sort() for n_ in news] + [x_.sort()]))
+                sub.append((x_, fx(*news) if news else fx()))
+            S_ = lambda t_: z3.substitute(t_, *sub) if sub else t_
+            mt = S_(mref)
+            facts = [S_(defs), z3.Not(z3.Select(alive0, mt)), z3.Select(new, VRef(mt))]
+            for (k, idx, val) in writes:
+                facts.append(z3.Select(final[k], S_(idx)) == S_(val))
+                facts.append(z3.Not(z3.Select(alive0, S_(idx))))
+            guard = z3.And(cond, dec)
+            pats = None
+            if news:
+                pats = [mt]
+                if ev is not None and legal_pattern(ev) and all(any(n_.eq(x_) for x_ in consts_since([ev], 0)) for n_ in news) \
+                        and not any(ev.eq(n_) for n_ in news):
+                    pats.append(ev)
+                st.define(z3.ForAll(news, z3.Implies(guard, z3.And(facts)), patterns=pats))
+                news2 = [fresh("mq", n_.sort()) for n_ in news]
+                g2 = z3.substitute(guard, *zip(news, news2))
+                mt2 = z3.substitute(mt, *zip(news, news2))
+                st.define(z3.ForAll(news + news2, z3.Implies(z3.And(guard, g2, mt == mt2), z3.And([a_ == b_ for a_, b_ in zip(news, news2)]))))
+                disj.append(z3.Exists(news, z3.And(guard, x == VRef(mt))))
+            else:
+                st.define(z3.Implies(guard, z3.And(facts)))
+                disj.append(z3.And(guard, x == VRef(mt)))
+        st.define(z3.ForAll([x], z3.Select(new, x) == z3.Or(*disj)))
+        for k in keys:
+            st.heap[k] = final[k]
+        st.heap[ks] = z3.Store(eng.field_array(st, ks), r, new)
+        kl = self.key(msg, attr) + "#len"
+        st.heap[kl] = z3.Store(eng.field_array(st, kl), r, fresh("replen", Int))
+        return sv_none()
+
     def sub_get(self, eng, sub, attr, st):
         """attribute of a message-typed field handle (proto_symbol.foo.bar)"""
         r, msg, fattr, t = sub.x
